@@ -50,7 +50,9 @@ RULE = (
     "over-printed lines, random glyph soups; LAParams dyadic (plus the defaults); each arrangement analysed at scale "
     "2^k for k in a tier-dependent subset of -8..8 (all 17 in thorough for the direct route). distinct = distinct "
     "(glyph boxes, page, LAParams, route); non-trivial = at least one glyph pair or line pair whose outcome the "
-    "documentation decides. Not generated / not asserted (documentation silent): word_margin = 0, glyphs placed "
+    "documentation decides. All glyphs lie inside the page box (>= 1 unit margin; about a quarter of the direct pages "
+    "have a non-zero, also negative, origin): text outside the page box is invisible and the documentation does not "
+    "speak about it. Not generated / not asserted (documentation silent): word_margin = 0, glyphs placed "
     "entirely left of their predecessor (spaces), word_margin basis when height > width and the two documented "
     "bases disagree, horizontally touching lines, height/alignment difference exactly equal to the tolerance, "
     "closeness between line_margin x smaller and x larger height, glyph pairs that satisfy the horizontal and the "
@@ -75,36 +77,44 @@ Q = G.Q
 SCALES_ALL = list(range(-8, 9))
 SCALES_QUICK = [-8, -3, 2, 5, 8]
 SCALES_PDF = [-6, 3, 7]
+# family -> ((shards, cases per shard) quick, (..) thorough); the column families are the most expensive per case
+FAM_SHARDS = {
+    "*": ((3, 400), (8, 1100)),
+    "col2": ((6, 200), (16, 560)),
+    "col1": ((4, 300), (12, 750)),
+    "vstack": ((4, 300), (12, 750)),
+}
 RANDOM_FAMS = ["row", "multirow", "vrow", "stack", "vstack", "col1", "col2", "overprint", "grid", "soup"]
 
 
 def minimums(tier: str) -> Dict[str, int]:
+    # about 0.6 x the smallest value seen over seeds 0..4 on the intact (repaired) tree
     if tier == "quick":
         return {
-            "evaluations": 8000, "distinct": 6000, "analyses": 40000, "pairs_decided": 30000, "pairs_joined": 8000,
-            "pairs_split": 8000, "spaces_asserted": 4000, "space_yes": 500, "space_no": 1500,
-            "linepairs_yes": 4000, "linepairs_no": 4000, "box_partitions_asserted": 4000,
-            "order_constraints_checked": 4000, "order:one_column": 300, "order:two_columns": 150, "order:none": 150,
-            "scale_runs": 35000, "scale_bboxes_compared": 400000, "pdf_cases": 300,
-            "near:line_overlap:below": 200, "near:line_overlap:on": 200, "near:line_overlap:above": 200,
-            "near:char_margin:below": 200, "near:char_margin:on": 200, "near:char_margin:above": 200,
-            "near:word_margin:below": 200, "near:word_margin:on": 200, "near:word_margin:above": 200,
-            "near:line_margin_gap:below": 60, "near:line_margin_gap:on": 60, "near:line_margin_gap:above": 60,
-            "near:align:below": 60, "near:align:above": 60, "near:height:below": 20, "near:height:above": 20,
-            "vertical_lines_seen": 300, "multi_cell_pages": 5000, "seen:families": 12,
+            "evaluations": 15000, "distinct": 14000, "analyses": 90000, "pairs_decided": 110000, "pairs_joined": 80000,
+            "pairs_split": 32000, "spaces_asserted": 80000, "space_yes": 1900, "space_no": 78000,
+            "linepairs_yes": 11000, "linepairs_no": 100000, "box_partitions_asserted": 9000,
+            "order_constraints_checked": 6500, "order:one_column": 550, "order:two_columns": 600, "order:none": 440,
+            "scale_runs": 75000, "scale_bboxes_compared": 1000000, "pdf_cases": 700,
+            "near:line_overlap:below": 800, "near:line_overlap:on": 1900, "near:line_overlap:above": 900,
+            "near:char_margin:below": 800, "near:char_margin:on": 1500, "near:char_margin:above": 850,
+            "near:word_margin:below": 1000, "near:word_margin:on": 750, "near:word_margin:above": 800,
+            "near:line_margin_gap:below": 1800, "near:line_margin_gap:on": 2200, "near:line_margin_gap:above": 1100,
+            "near:align:below": 130, "near:align:above": 110, "near:height:below": 70, "near:height:above": 65,
+            "vertical_lines_seen": 3600, "multi_cell_pages": 20000, "seen:families": 21, "seen:boxes_flow": 7,
         }
     return {
-        "evaluations": 60000, "distinct": 50000, "analyses": 800000, "pairs_decided": 250000, "pairs_joined": 60000,
-        "pairs_split": 60000, "spaces_asserted": 30000, "space_yes": 4000, "space_no": 10000,
-        "linepairs_yes": 30000, "linepairs_no": 30000, "box_partitions_asserted": 30000,
-        "order_constraints_checked": 30000, "order:one_column": 2500, "order:two_columns": 1200, "order:none": 1200,
-        "scale_runs": 700000, "scale_bboxes_compared": 8000000, "pdf_cases": 2500,
-        "near:line_overlap:below": 800, "near:line_overlap:on": 800, "near:line_overlap:above": 800,
-        "near:char_margin:below": 800, "near:char_margin:on": 800, "near:char_margin:above": 800,
-        "near:word_margin:below": 800, "near:word_margin:on": 800, "near:word_margin:above": 800,
-        "near:line_margin_gap:below": 500, "near:line_margin_gap:on": 500, "near:line_margin_gap:above": 500,
-        "near:align:below": 500, "near:align:above": 500, "near:height:below": 150, "near:height:above": 150,
-        "vertical_lines_seen": 2500, "multi_cell_pages": 100000, "seen:families": 12,
+        "evaluations": 95000, "distinct": 90000, "analyses": 1400000, "pairs_decided": 750000, "pairs_joined": 540000,
+        "pairs_split": 210000, "spaces_asserted": 540000, "space_yes": 10000, "space_no": 520000,
+        "linepairs_yes": 78000, "linepairs_no": 670000, "box_partitions_asserted": 46000,
+        "order_constraints_checked": 46000, "order:one_column": 3700, "order:two_columns": 3700, "order:none": 3000,
+        "scale_runs": 1300000, "scale_bboxes_compared": 20000000, "pdf_cases": 7000,
+        "near:line_overlap:below": 3700, "near:line_overlap:on": 10000, "near:line_overlap:above": 4400,
+        "near:char_margin:below": 4000, "near:char_margin:on": 8000, "near:char_margin:above": 4000,
+        "near:word_margin:below": 3700, "near:word_margin:on": 2800, "near:word_margin:above": 2800,
+        "near:line_margin_gap:below": 10000, "near:line_margin_gap:on": 13000, "near:line_margin_gap:above": 6600,
+        "near:align:below": 850, "near:align:above": 700, "near:height:below": 520, "near:height:above": 450,
+        "vertical_lines_seen": 23000, "multi_cell_pages": 250000, "seen:families": 25, "seen:boxes_flow": 7,
     }
 
 
@@ -115,15 +125,15 @@ def shards(tier: str, seed: int) -> List[Dict[str, Any]]:
         parts = 2 if quick else 4
         for p in range(parts):
             out.append({"kind": "enum", "which": which, "part": p, "parts": parts})
-    per = 420 if quick else 1700
-    nsh = 2 if quick else 4
     sub = 0
     for fam in RANDOM_FAMS:
+        nsh, per = FAM_SHARDS.get(fam, FAM_SHARDS["*"])[0 if quick else 1]
         for _ in range(nsh):
             out.append({"kind": "rand", "fam": fam, "n": per, "sub": sub, "via": "direct"})
             sub += 1
+    sub = 1000
     for fam in ("row", "stack", "col1", "col2", "multirow", "vrow") if quick else RANDOM_FAMS:
-        out.append({"kind": "rand", "fam": fam, "n": 90 if quick else 450, "sub": sub, "via": "pdf"})
+        out.append({"kind": "rand", "fam": fam, "n": 120 if quick else 700, "sub": sub, "via": "pdf"})
         sub += 1
     return out
 
@@ -617,12 +627,14 @@ def check_scales(case: Dict[str, Any], t0: Tree, scales: List[int], stats: Dict[
             fails.append((key, "%sscale 1 gives %r but scale 2^%d gives %r [fam=%s la=%r]"
                           % (why, _show(t0), k, _show(tk), case["fam"], case["la"])))
             continue
-        pairs = list(zip(t0.bboxes, tk.bboxes))
         if tk.groups != t0.groups:
-            # the merge order of equally close boxes is not specified; only reported
-            stats["group_tree_differs_across_scales"] = stats.get("group_tree_differs_across_scales", 0) + 1
-        else:
-            pairs += list(zip(t0.gbboxes, tk.gbboxes))
+            fails.append(("scale_dependence:group_tree", "same boxes in the same order, but the hierarchy of groups is %r "
+                          "at scale 1 and %r at scale 2^%d [fam=%s la=%r]" % (t0.groups, tk.groups, k, case["fam"], case["la"])))
+            continue
+        pairs = list(zip(t0.bboxes, tk.bboxes)) + list(zip(t0.gbboxes, tk.gbboxes))
+        if len(t0.bboxes) != len(tk.bboxes) or len(t0.gbboxes) != len(tk.gbboxes):
+            fails.append(("scale_dependence:bbox", "number of objects differs at 2^%d" % k))
+            continue
         bad = None
         for b0, bk in pairs:
             if tuple(math.ldexp(v, k) for v in b0) != bk:
@@ -717,6 +729,22 @@ def run_shard(spec: Dict[str, Any], rec) -> None:
         else:
             scales = SCALES_QUICK if quick else SCALES_ALL
         _run_one(case, scales, rec)
+
+
+def finish(agg: Dict[str, Any], tier: str) -> Dict[str, Any]:
+    c = agg["counters"]
+    und = {k[len("undecided:"):]: v for k, v in c.items() if k.startswith("undecided:")}
+    return {
+        "scales_direct": SCALES_QUICK if tier == "quick" else SCALES_ALL,
+        "scales_pdf": SCALES_PDF,
+        "not_asserted_because_documentation_undecided": und,
+        "documented_outcomes_asserted": {
+            "glyph_pairs": c.get("pairs_decided", 0), "spaces": c.get("spaces_asserted", 0),
+            "line_pairs": c.get("linepairs_yes", 0) + c.get("linepairs_no", 0),
+            "box_partitions": c.get("box_partitions_asserted", 0),
+            "order_constraints": c.get("order_constraints_checked", 0),
+        },
+    }
 
 
 def replay(case: Dict[str, Any]) -> List[Tuple[str, str]]:
